@@ -39,7 +39,7 @@ def fixture_state(root, manifest_dir=None):
     return out
 
 
-def run_scenario(root, scenario, fail=(), workspace=None, manifest_rel=None, layout=None, post=None):
+def run_scenario(root, scenario, fail=(), workspace=None, manifest_rel=None, layout=None, post=None, host_env=None):
     """fail: invocation ordinals that exit 1; an entry "k!" is a *hard* failure of `docker run` k
     (rejected at create time: the container never exists, later logs/exec/port on it fail too).
     -> dict(outcome, message, log=[{n,prog,argv}], tmp_left=[...], fixture_same, path_dirs={path: listing})"""
@@ -71,6 +71,8 @@ def run_scenario(root, scenario, fail=(), workspace=None, manifest_rel=None, lay
            "FAKECLI_LOG": log, "FAKECLI_FAIL": ",".join(str(i) for i in fail if isinstance(i, int)),
            "FAKECLI_HARD": ",".join(i[:-1] for i in fail if isinstance(i, str)), "RUST_BACKTRACE": "0"}
     env.update(extra_env)
+    if host_env:
+        env.update(host_env)
     r = subprocess.run([RUNNER, sp], env=env, cwd=root, stdout=subprocess.PIPE, stderr=subprocess.PIPE, timeout=600)
     res = {"outcome": "abort", "message": r.stderr.decode(errors="replace")[-300:], "exit": r.returncode}
     out = r.stdout.decode(errors="replace").strip().splitlines()
